@@ -30,14 +30,15 @@ ASSUMPTIONS = [
     'iterate): they must raise an ordinary exception, not RecursionError.  Un-memoized traversals have no cycle table; '
     'their RecursionError on cyclic input is outside this claim.',
 ]
-OUT_OF_BOUNDS = ['depth > 6', 'third-party node types other than the family\'s Box', 'dict keys outside {str, small int}']
+OUT_OF_BOUNDS = ['all-paths queries *about* temporaries created by a user-registered flatten (no stable identity; '
+                 'State.get_all_paths and the legacy memoized_traverse raise KeyError for them today)', 'depth > 6', 'third-party node types other than the family\'s Box', 'dict keys outside {str, small int}']
 
 APIS = ['iterate_memoized', 'iterate_unmemoized', 'iterate_no_internables', 'collect_paths_by_id', 'get_all_paths',
         'identity_rebuild', 'legacy_traverse_with_path', 'legacy_memoized_traverse', 'legacy_collect_value_by_path',
         'legacy_collect_value_by_id']
 
 
-def make_struct(w, t1x, t1y, t2x, t2y, lv, rootkind):
+def make_struct(w, t1x, t1y, t2x, t2y, lv, rootkind, with_table=True):
   root3, nodes = fam.make(3, [(-1, -1), (t1x, t1y), (t2x, t2y)], [(0, 0), (w, w), (w, w)],
                           leaves=[(lv, lv + 1), (lv + 2, lv + 3), (lv + 4, lv + 5)], share=True,
                           partial=[False, True, False])
@@ -45,7 +46,11 @@ def make_struct(w, t1x, t1y, t2x, t2y, lv, rootkind):
   shared = [nodes[0], inter, lv + 6]
   dd = collections.defaultdict(list, {'a': nodes[0], 'b': [lv + 7]})
   top = fdl.Config(fam.fp, root3, inter, shared, dd, fam.NT(nodes[1], ()), fam.Box([nodes[0], lv + 8]),
-                   k={'e': [], 'i': inter, 's': shared, 3: {}})
+                   k={'e': [], 'i': inter, 's': shared, 3: {},
+                      't': [fam.Table({'a': nodes[0], 'b': lv + 9}), fam.Table({'a': lv + 10, 'c': nodes[0]}),
+                            fam.Table({'b': lv + 9, 'a': lv + 11})]})
+  if not with_table:
+    del top.k['t']
   if rootkind == 1:
     return {'cfg': top, 7: shared, 'nt': fam.NT(top, inter)}, nodes
   if rootkind == 2:
@@ -55,6 +60,17 @@ def make_struct(w, t1x, t1y, t2x, t2y, lv, rootkind):
 
 def _is_mut(x):
   return not is_immutable_value(x)
+
+
+def _is_temp(path_str):
+  """(key, value) pairs below a Table are temporaries: fresh objects on every flatten / follow."""
+  i = path_str.find("['t'][")
+  return i >= 0 and path_str[i:].count('[') == 3
+
+
+def _persistent_tuples(ref):
+  """{id: tuple} for non-empty tuple objects that are reachable without going through a Table."""
+  return {id(o): o for p, o in ref if isinstance(o, tuple) and len(o) and "['t']" not in p}
 
 
 def _all_paths_by_id(pairs):
@@ -75,24 +91,26 @@ def c08_traverse(api: int, w: int, rootkind: int, t1x: int, t1y: int, t2x: int, 
         return c
     return -1
   t1x, t1y, t2x, t2y = conc(t1x, 1), conc(t1y, 1), conc(t2x, 2), conc(t2y, 2)
-  root, nodes = make_struct(w, t1x, t1y, t2x, t2y, lv, rootkind)
+  # the legacy all-paths traversal keys its path table by id in a separate pass: node types whose children are
+  # temporaries have no stable identity there (KeyError today) - outside the claim, see OUT_OF_BOUNDS
+  root, nodes = make_struct(w, t1x, t1y, t2x, t2y, lv, rootkind, with_table=(api != 7))
   ref = reach_paths(root)                       # independent: every (path string, object), each path once
   ref_paths = sorted(p for p, _ in ref)
   by_id = _all_paths_by_id(ref)
-  muts = {id(o): o for _, o in ref if _is_mut(o)}
+  muts = {id(o): o for p, o in ref if _is_mut(o) and not _is_temp(p)}
   before = canon(root)
   note('c08', api, w, rootkind, t1x, t1y, t2x, t2y, len(ref_paths), len(muts))
   ok = True
   if api in (0, 1, 2):
     got = list(daglish.iterate(root, memoized=(api != 1), memoize_internables=(api != 2)))
     for value, path in got:
-      if daglish.follow_path(root, path) is not value:
+      if not _same(daglish.follow_path(root, path), value, daglish.path_str(path)):
         return False
     strs = sorted(daglish.path_str(p) for _, p in got)
     if api == 1:
       ok = strs == ref_paths                    # every path exactly once
     else:
-      seen = [id(v) for v, _ in got if _is_mut(v)]
+      seen = [id(v) for v, p in got if _is_mut(v) and not _is_temp(daglish.path_str(p))]
       ok = sorted(seen) == sorted(muts) and len(set(strs)) == len(strs) and set(strs) <= set(ref_paths)
       if api == 2 and ok:
         # internable values are not memoized: every path to an immutable leaf is reported
@@ -111,24 +129,31 @@ def c08_traverse(api: int, w: int, rootkind: int, t1x: int, t1y: int, t2x: int, 
       for p in res[oid]:
         if daglish.follow_path(root, p) is not obj:
           return False
+    # non-empty tuples are memoizable too: every path to every persistent tuple object is listed
+    for oid, tup in _persistent_tuples(ref).items():
+      want = sorted(p for p in by_id[oid])
+      if oid not in res or sorted(daglish.path_str(p) for p in res[oid]) != want:
+        return False
   elif api == 4:
     seen = {}
 
+    ptup = _persistent_tuples(ref)
+
     def visit(value, state):
-      if _is_mut(value):
+      if id(value) in muts or id(value) in ptup:
         seen[id(value)] = sorted(daglish.path_str(p) for p in state.get_all_paths())
       for _ in state.yield_map_child_values(value, ignore_leaves=True):
         pass
 
     daglish.MemoizedTraversal.run(visit, root)
-    for oid in muts:
+    for oid in list(muts) + list(ptup):
       if seen.get(oid) != sorted(by_id[oid]):
         return False
   elif api == 5:
     new = daglish.MemoizedTraversal.run(lambda v, s: s.map_children(v), root)
     if canon(new) != before or new is root:
       return False
-    new_ids = {id(o) for _, o in reach_paths(new) if _is_mut(o)}
+    new_ids = {id(o) for p, o in reach_paths(new) if _is_mut(o) and not _is_temp(p)}
     ok = not (new_ids & set(muts))              # shares no container / Buildable with the input
     dd = [o for _, o in reach_paths(new) if isinstance(o, collections.defaultdict)]
     ok = ok and all(d.default_factory is list for d in dd) and len(dd) >= 1
@@ -141,7 +166,7 @@ def c08_traverse(api: int, w: int, rootkind: int, t1x: int, t1y: int, t2x: int, 
 
     new = daglish_legacy.traverse_with_path(fn, root)
     for path, value in got:
-      if daglish.follow_path(root, path) is not value:
+      if not _same(daglish.follow_path(root, path), value, daglish.path_str(path)):
         return False
     ok = sorted(daglish.path_str(p) for p, _ in got) == ref_paths and canon_tree_equal(new, root)
   elif api == 7:
@@ -152,23 +177,30 @@ def c08_traverse(api: int, w: int, rootkind: int, t1x: int, t1y: int, t2x: int, 
       return (yield)
 
     new = daglish_legacy.memoized_traverse(fn2, root)
-    seen = [id(v) for _, v in got if _is_mut(v)]
+    seen = [id(v) for _, v in got if _is_mut(v) and id(v) in muts]
     if sorted(seen) != sorted(muts):
       return False
+    ptup = _persistent_tuples(ref)
     for paths, value in got:
-      if _is_mut(value) and sorted(daglish.path_str(p) for p in paths) != sorted(by_id[id(value)]):
+      if (id(value) in muts or id(value) in ptup) and sorted(daglish.path_str(p) for p in paths) != sorted(by_id[id(value)]):
         return False
+    if not set(ptup) <= {id(v) for _, v in got}:
+      return False
     ok = canon(new) == before
   elif api == 8:
     res = daglish_legacy.collect_value_by_path(root, memoizable_only=False)
     ok = sorted(daglish.path_str(p) for p in res) == ref_paths
     for p, v in res.items():
-      if daglish.follow_path(root, p) is not v:
+      if not _same(daglish.follow_path(root, p), v, daglish.path_str(p)):
         return False
   else:
     res = daglish_legacy.collect_value_by_id(root, memoizable_only=True)
     ok = all(oid in res and res[oid] is o for oid, o in muts.items())
   return bool(ok) and canon(root) == before
+
+
+def _same(a, b, path_str):
+  return (a == b) if _is_temp(path_str) else (a is b)
 
 
 def canon_tree_equal(new, old):
